@@ -356,7 +356,15 @@ namespace hs
                 // fixed source: no growth possible, n nodes must fit
                 p.set("sut", std::string(sut.substr(0, sut.rfind('.'))) + ".FX");
                 sut = p.get("sut");
-                p.set("mbs_n", (long long)r.size_biased(1, r.chance(1, 3) ? 1200 : 300));
+                // node sizes 1..512 (small-node pools 1..200), counts up to 2000 as far as the one block stays below
+                // what the simulated upstream hands out at once
+                if (r.chance(1, 2))
+                    p.set("node_size", (long long)r.size_biased(1, has(sut, ".small.") ? 200 : 512));
+                auto        ns  = std::size_t(p.num("node_size", 8));
+                std::size_t top = 200000 / (ns < 8 ? 8 : ns);
+                if (top > 2000)
+                    top = 2000;
+                p.set("mbs_n", (long long)r.size_biased(1, r.chance(1, 3) ? top : (top < 300 ? top : 300)));
             }
             else
                 p.set("mbs_n", (long long)r.size_biased(1, 2000));
@@ -382,7 +390,7 @@ namespace hs
         if (is_iter)
         {
             w_next  = r.pick<unsigned>({6, 15, 30});
-            w_fr    = 0;
+            w_fr    = 8; // (does nothing, but is a legal call; the composable form says whether the memory is its own)
             w_frall = 0;
         }
         if (is_static)
@@ -494,6 +502,12 @@ namespace hs
             switch (r.weighted(w, sizeof w / sizeof *w))
             {
             case 0:
+                if ((is_stack || is_iter || is_static) && !is_temp && fam != 2 && r.chance(1, 12))
+                {
+                    p.add("fill", {obj(), fam});
+                    ++live;
+                    break;
+                }
                 p.add("an", {obj(), fam, (long long)r.size_biased(0, 4000), (long long)r.pick({0, 0, 1, 2, 3, 3, 4, 4, 5, 6, 8, 12})},
                       fault());
                 ++live;
@@ -597,6 +611,9 @@ namespace hs
             for (int kind = 0; kind < 3; ++kind)
                 for (int pos = 0; pos < 4; ++pos)
                     p.add("bad", {kind, pos, (long long)r.below(1000)});
+            p.add("bad", {0, 4, (long long)r.below(1000)});
+            p.add("bad", {1, 4, (long long)r.below(1000)});
+            p.add("bad", {1, 5, (long long)r.below(1000)});
             for (int k = 0; k < 4; ++k)
                 p.add("badblk", {k});
             return p;
